@@ -3,6 +3,7 @@ mod cli;
 mod engine;
 mod mock;
 mod pgc;
+mod prog;
 mod props;
 mod proto;
 mod refhash;
